@@ -625,6 +625,11 @@ func (s *suite[T]) rangeResult(fn string, c int, d string, got, want []T, def fu
 		}
 		return
 	}
+	if c == 0 && (fn == "Drop" || fn == "DropLast") && !seqEq(got, want) {
+		// dropping no item is the one non-positive count whose meaning the documentation fixes
+		s.bad(fn, "wrong-result", "%s(0, %s) = %v: dropping no item leaves the list %v", fn, d, got, want)
+		return
+	}
 	if !contiguous(got, want) {
 		s.bad(fn, "nonpositive-count", "%s(%d, %s) = %v is not a contiguous part of the list", fn, c, d, got)
 	}
